@@ -776,6 +776,55 @@ pub fn factor_lets(spec: &mut Spec, tape: &[u32], pct: u32) {
     let mut new_items: Vec<Top> = nested.into_iter().map(|(n, re)| Top::Let(n, re)).collect();
     new_items.append(&mut spec.items);
     spec.items = new_items;
+    // half of the time: every top-level binding moves down to just before its first use (between
+    // rules, between rule sets) — "visible in every later rule and rule set"
+    if t.next(2) == 0 {
+        sink_top_lets(spec);
+    }
+}
+
+fn re_uses(re: &Re, name: &str) -> bool {
+    match re {
+        Re::Var(n) => n == name,
+        Re::Star(a) | Re::Plus(a) | Re::Opt(a) => re_uses(a, name),
+        Re::Cat(a, b) | Re::Alt(a, b) | Re::Diff(a, b) => re_uses(a, name) || re_uses(b, name),
+        _ => false,
+    }
+}
+
+fn top_uses(item: &Top, name: &str) -> bool {
+    let rule_uses = |r: &Rule| re_uses(&r.re, name) || r.ctx.as_ref().map(|c| re_uses(c, name)).unwrap_or(false);
+    match item {
+        Top::Let(_, re) => re_uses(re, name),
+        Top::Rule(r) => rule_uses(r),
+        Top::RuleSet { items, .. } => items.iter().any(|i| match i {
+            Inner::Let(_, re) => re_uses(re, name),
+            Inner::Rule(r) => rule_uses(r),
+        }),
+        _ => false,
+    }
+}
+
+/// Moves every top-level `let` to the position just before the first item that mentions its
+/// name (processed from the last binding to the first, so that chains keep their order).
+pub fn sink_top_lets(spec: &mut Spec) {
+    let mut i = spec.items.len();
+    while i > 0 {
+        i -= 1;
+        let name = match &spec.items[i] {
+            Top::Let(n, _) => n.clone(),
+            _ => continue,
+        };
+        let first_use = (i + 1..spec.items.len()).find(|&j| top_uses(&spec.items[j], &name));
+        let target = match first_use {
+            Some(j) => j - 1,
+            None => continue,
+        };
+        if target > i {
+            let item = spec.items.remove(i);
+            spec.items.insert(target, item);
+        }
+    }
 }
 
 /// A class with many scattered pieces (more than the guard-chain threshold of the generated code).
@@ -945,6 +994,8 @@ pub fn many_char_set(tape: &[u32], n: usize) -> Re {
     let mut items: Vec<SetItem> = vec![];
     let mut used: Vec<char> = vec![];
     let mut k = t.next(pool.len() as u32) as usize;
+    // one in four: 8 more characters (more than 16 in all)
+    let n = if t.next(4) == 0 { n + 8 } else { n };
     while items.len() < n.min(pool.len()) {
         let c = pool[k % pool.len()];
         k += 1 + t.next(3) as usize;
@@ -952,6 +1003,12 @@ pub fn many_char_set(tape: &[u32], n: usize) -> Re {
             used.push(c);
             items.push(SetItem::C(c));
         }
+    }
+    // one in three: an early character listed again at the end (legal; the set is a union)
+    if t.next(3) == 0 && !items.is_empty() {
+        let j = t.next(items.len().min(16) as u32) as usize;
+        let again = items[j].clone();
+        items.push(again);
     }
     Re::Set(items)
 }
